@@ -92,7 +92,7 @@ def _gen(src, cfg, rng, n, tier, st):
         # the sources enumerate small types exhaustively; here a sample is enough
         cfgx = cfg
     reqs = []
-    dummy = {'exhaustive': []}
+    dummy = {'exhaustive': [], 'no_sweeps': True}
     if src == 'c20':
         it = P.requests(cfg, rng, n * 3, tier, 0, 64 if cfg.bits <= 24 else 1, dummy)
     elif cfg.bits <= 16 and src != 'c03':
